@@ -66,8 +66,18 @@ def setup_controller(u, qual, control_type, display_on=None):
         log["values"][id(iterate_)] = v
         return v
 
+    def scaled_value_at(it, self_, iterate_, rho_, active_set=None):
+        """ScaledImplicitFunc.value_at == (1/dt) * ImplicitFunc.value_at (definitions: C13.*.value_at)"""
+        Fv = log["values"].get(id(iterate_))
+        if Fv is None:
+            Fv = value_at(it, self_, iterate_, rho_, active_set)
+        lam_ = 1 / self_.fields["dt"]
+        fv = Fv.vec()
+        return Arr.new(Vec(fv.n, lambda i: lam_ * fv.f(i), "real"))
+
     u.it.abstract[SC + "newton_control.NewtonController.newton_steps"] = newton_steps
     u.it.abstract["pygradflow.implicit_func.ImplicitFunc.value_at"] = value_at
+    u.it.abstract["pygradflow.implicit_func.ScaledImplicitFunc.value_at"] = scaled_value_at
     # the inner (per Newton step) display is an observer: display_step is seen through its contract
     # "raises nothing, writes only observer state", proved from the real code in unit C09.display_step
     if display_on is None:
